@@ -449,6 +449,9 @@ PROBE = r'''
 """C15 probe (generated): compiles the programs of c15_main with and without source maps."""
 import json, os, sys, traceback
 sys.path.insert(0, os.environ["C15_REPO"])
+for _sib in ("../app_shared", "../lib"):          # modules of the project living beside the working directory
+    if os.path.isdir(_sib):
+        sys.path.insert(1, os.path.abspath(_sib))
 sys.setrecursionlimit(20000)
 ENABLED = os.environ.get("C15_SOURCEMAP") == "1"
 from feature_gates import FeatureGates
@@ -785,9 +788,12 @@ class Project:
         main = SrcFile("c15_main.py")
         mods = []
         nmods = {"single": 0, "multi": r.randrange(2, 4), "router": r.randrange(0, 2), "long": 1,
-                 "shadow": r.randrange(1, 3)}[self.shape]
+                 "shadow": r.randrange(1, 3), "sibling": r.randrange(2, 4)}[self.shape]
         for i in range(nmods):
-            if self.shape == "shadow" and i == 0:
+            if self.shape == "sibling" and i < 2:
+                # beside the working directory `app`: a directory whose NAME starts with the working directory's, and an unrelated one
+                mods.append(SrcFile(("../app_shared/" if i == 0 else "../lib/") + f"c15_mod{i}.py", f"c15_mod{i}"))
+            elif self.shape == "shadow" and i == 0:
                 # a user module whose path contains the fragment `pyteal/ast` of StackFrame._internal_paths
                 mods.append(SrcFile("c15pyteal/ast_mod0.py", "c15pyteal.ast_mod0"))
             else:
@@ -915,7 +921,7 @@ class Project:
         for f in self.files:
             (d / f.name).parent.mkdir(parents=True, exist_ok=True)
             (d / f.name).write_text(f.text())
-            if "/" in f.name:
+            if "/" in f.name and not f.name.startswith("../"):
                 (d / f.name).parent.joinpath("__init__.py").write_text("")
         (d / "c15_probe.py").write_text(PROBE)
 
@@ -1244,7 +1250,9 @@ def diff_round(rep: Report, d: Driver, plan: list, stats: dict, tmp_root: Path, 
         t0 = time.time()
         r = rng(f"c15-diff-{i}-{shape}")
         proj = Project(r, stats, shape, size)
-        wd = Path(tempfile.mkdtemp(prefix=f"c15src_{i}_", dir=str(tmp_root)))
+        root = Path(tempfile.mkdtemp(prefix=f"c15src_{i}_", dir=str(tmp_root)))
+        wd = root / "app"          # the working directory of the compiling process; `sibling` projects keep modules beside it
+        wd.mkdir()
         proj.write(wd)
         body = {"kind": "diff", "shape": shape, "size": size, "plan_index": i, "annotate_options": annotate,
                 "files": {f.name: f.text() for f in proj.files} if shape != "long" else {},
@@ -1263,7 +1271,7 @@ def diff_round(rep: Report, d: Driver, plan: list, stats: dict, tmp_root: Path, 
         if len(samples) < 4:
             samples.append({"shape": shape, "files": {f.name: len(f.lines) for f in proj.files},
                             "cfgs": proj.cfgs, "markers": len(proj.markers), "markers_in_teal": len(proj.seen)})
-        shutil.rmtree(wd, ignore_errors=True)
+        shutil.rmtree(root, ignore_errors=True)
     return samples
 
 
@@ -1293,12 +1301,12 @@ def run(tier: str) -> int:
         for k in range(20):
             plan += [("single", 6 + k % 20, ANNOTATE_ALL), ("multi", 5 + k % 12, ANNOTATE_ALL),
                      ("router", 3 + k % 6, ANNOTATE_ALL)]
-        plan += [("shadow", 6, ANNOTATE_ALL)] * 3
+        plan += [("shadow", 6, ANNOTATE_ALL)] * 3 + [("sibling", 6, ANNOTATE_ALL), ("sibling", 10, two)]
         plan += [("long", 3000, ANNOTATE_ALL), ("long", 5000, ANNOTATE_ALL), ("long", 5000, two)]
     else:
         plan = [("single", 10, ANNOTATE_ALL), ("multi", 8, ANNOTATE_ALL), ("router", 4, ANNOTATE_ALL),
                 ("single", 22, ANNOTATE_ALL), ("multi", 12, ANNOTATE_ALL), ("router", 6, ANNOTATE_ALL),
-                ("shadow", 6, ANNOTATE_ALL),
+                ("shadow", 6, ANNOTATE_ALL), ("sibling", 6, two),
                 ("long", 3000, two)]
     tmp_root = Path(tempfile.mkdtemp(prefix="c15_"))          # outside /repo and /verif
     timings: list = []
@@ -1414,7 +1422,7 @@ def replay(path: str) -> int:
             g = body["regen"]
             proj = Project(rng(g["tag"]), stats, g["shape"], g["size"])
         tmp_root = Path(tempfile.mkdtemp(prefix="c15_replay_"))
-        wd = tmp_root / "p"
+        wd = tmp_root / "app"
         wd.mkdir()
         proj.write(wd)
         if not (wd / "c15_probe.py").exists():
